@@ -1,2 +1,3 @@
 E1SRC := $(V)/engine/e1/sched.cpp $(V)/engine/e1/explorer.cpp
 $(eval $(call HARNESS,c07_hydroloop,$(V)/harness/C07/c07_hydroloop.cpp $(E1SRC),hook,-I$(V)/engine/e1,))
+$(eval $(call HARNESS,c07_taskmodel,$(V)/harness/C07/c07_taskmodel.cpp,plain,-fno-access-control -O2,))
